@@ -58,6 +58,9 @@ class FutexEngine(SmallWordEngine):
                         ('futex', inst.id, st.stack(), repr(vals), repr(tsinfo), tuple(sorted(st.ghost.items(), key=repr))))
             if kind == 'wake':
                 st.ghost[('flag', 'woke')] = 1
+            # the futex system call reads its timeout argument and writes nothing through it: the caller's timespec survives the call (a
+            # loop may compute an absolute timeout once, before its first attempt)
+            return [(st, TOP)]
         return None
 
 def sem_functions(mod):
